@@ -912,3 +912,201 @@ package vm
 //@   ensures [pc]   *pc == old(*pc) + size
 //@   ensures [ret]  result1 == nil && len(result0) == 0
 //@   modifies *pc, callContext.stack.data, elems(callContext.stack.data)
+
+// ---------------------------------------------------------------------------------------------
+// State versions (C12, C06, C11): the world state behind vm.StateDB is abstracted by a ghost version
+// token. Every mutating method produces an arbitrary new version, queries keep it, Snapshot remembers the
+// current version under the returned id and RevertToSnapshot restores it. "State is as it was at the
+// snapshot" is then equality of versions, which can only be proved if the code really reverted.
+//@ ghost stver Int
+//@ ghost snapver (Array Int Int)
+//@ ghost snapnext Int
+
+//@ func StateDB.CreateAccount
+//@   option trusted interface
+//@   modifies ghost(stver)
+
+//@ func StateDB.SubBalance
+//@   option trusted interface
+//@   modifies ghost(stver)
+
+//@ func StateDB.AddBalance
+//@   option trusted interface
+//@   modifies ghost(stver)
+
+//@ func StateDB.SetNonce
+//@   option trusted interface
+//@   modifies ghost(stver)
+
+//@ func StateDB.SetCode
+//@   option trusted interface
+//@   modifies ghost(stver)
+
+//@ func StateDB.AddRefund
+//@   option trusted interface
+//@   modifies ghost(stver)
+
+//@ func StateDB.SubRefund
+//@   option trusted interface
+//@   modifies ghost(stver)
+
+//@ func StateDB.SetState
+//@   option trusted interface
+//@   modifies ghost(stver)
+
+//@ func StateDB.SetTransientState
+//@   option trusted interface
+//@   modifies ghost(stver)
+
+//@ func StateDB.Suicide
+//@   option trusted interface
+//@   modifies ghost(stver)
+
+//@ func StateDB.AddAddressToAccessList
+//@   option trusted interface
+//@   modifies ghost(stver)
+
+//@ func StateDB.AddSlotToAccessList
+//@   option trusted interface
+//@   modifies ghost(stver)
+
+//@ func StateDB.AddLog
+//@   option trusted interface
+//@   modifies ghost(stver)
+
+//@ func StateDB.GetBalance
+//@   option trusted interface
+//@   modifies nothing
+
+//@ func StateDB.GetNonce
+//@   option trusted interface
+//@   modifies nothing
+
+//@ func StateDB.GetCodeHash
+//@   option trusted interface
+//@   modifies nothing
+
+//@ func StateDB.GetCode
+//@   option trusted interface
+//@   modifies nothing
+
+//@ func StateDB.GetCodeSize
+//@   option trusted interface
+//@   modifies nothing
+
+//@ func StateDB.GetRefund
+//@   option trusted interface
+//@   modifies nothing
+
+//@ func StateDB.GetCommittedState
+//@   option trusted interface
+//@   modifies nothing
+
+//@ func StateDB.GetState
+//@   option trusted interface
+//@   modifies nothing
+
+//@ func StateDB.GetTransientState
+//@   option trusted interface
+//@   modifies nothing
+
+//@ func StateDB.HasSuicided
+//@   option trusted interface
+//@   modifies nothing
+
+//@ func StateDB.Exist
+//@   option trusted interface
+//@   modifies nothing
+
+//@ func StateDB.Empty
+//@   option trusted interface
+//@   modifies nothing
+
+//@ func StateDB.AddressInAccessList
+//@   option trusted interface
+//@   modifies nothing
+
+//@ func StateDB.SlotInAccessList
+//@   option trusted interface
+//@   modifies nothing
+
+//@ func StateDB.Snapshot
+//@   option trusted interface
+//@   ensures Z(result) == old(ghost(snapnext)) && ghost(snapnext) == old(ghost(snapnext)) + 1
+//@   ensures ghost(snapver) == @store(old(ghost(snapver)), Z(result), ghost(stver))
+//@   modifies ghost(snapver), ghost(snapnext)
+
+//@ func StateDB.RevertToSnapshot
+//@   option trusted interface
+//@   ensures ghost(stver) == @select(ghost(snapver), Z(arg0))
+//@   modifies ghost(stver)
+
+// Value transfer hooks installed in the EVM context (vm.CanTransfer / vm.Transfer in init.go).
+//@ func Context.CanTransfer
+//@   option trusted
+//@   modifies nothing
+
+//@ func Context.Transfer
+//@   option trusted
+//@   modifies ghost(stver)
+
+// Running code in a frame: arbitrary state changes, gas only decreases (C11; the interpreter loop itself is
+// not yet under contract: this is an assumption of the frame-level contracts below).
+//@ func run
+//@   option trusted
+//@   requires evm != nil && contract != nil
+//@   ensures contract.Gas <= old(contract.Gas)
+//@   ensures ghost(snapnext) >= old(ghost(snapnext)) && forall i Int :: i < old(ghost(snapnext)) ==> @select(ghost(snapver), i) == @select(old(ghost(snapver)), i)
+//@   modifies ghost(stver), ghost(snapver), ghost(snapnext), contract.Gas, evm.interpreter, evm.callGasTemp, evm.depth
+
+//@ func ContractRef.Address
+//@   option trusted interface
+//@   modifies nothing
+
+//@ func PrecompiledContract.RequiredGas
+//@   option trusted interface
+//@   modifies nothing
+
+//@ func PrecompiledContract.Run
+//@   option trusted interface
+//@   modifies nothing
+
+//@ func RunPrecompiledContract
+//@   property C11
+//@   ensures [gas]  remainingGas <= suppliedGas
+//@   modifies nothing
+
+// Call frames (C12: a failing frame leaves no trace; C11: gas never grows, failed frames consume all gas).
+//@ func EVM.Call
+//@   property C12 C11
+//@   option intmode=math
+//@   requires ref(caller) != 0 && evm != nil && value != nil && typeid(caller) != 0 && typeid(evm.StateDB) != 0
+//@   ensures [gas]     leftOverGas <= gas
+//@   ensures [failgas] err != nil && err != ErrExecutionReverted && err != ErrDepth && err != ErrInsufficientBalance ==> leftOverGas == 0
+//@   ensures [revert]  err != nil ==> ghost(stver) == old(ghost(stver))
+
+//@ func EVM.CallCode
+//@   property C12 C11
+//@   option intmode=math
+//@   requires ref(caller) != 0 && evm != nil && value != nil && typeid(caller) != 0 && typeid(evm.StateDB) != 0
+//@   ensures [gas]     leftOverGas <= gas
+//@   ensures [failgas] err != nil && err != ErrExecutionReverted && err != ErrDepth && err != ErrInsufficientBalance ==> leftOverGas == 0
+//@   ensures [revert]  err != nil ==> ghost(stver) == old(ghost(stver))
+
+//@ func EVM.DelegateCall
+//@   property C12 C11
+//@   option intmode=math
+//@   # DELEGATECALL is only issued by opDelegateCall, whose caller is the running *Contract
+//@   requires istype(caller, *Contract)
+//@   requires ref(caller) != 0 && evm != nil && typeid(caller) != 0 && typeid(evm.StateDB) != 0
+//@   ensures [gas]     leftOverGas <= gas
+//@   ensures [failgas] err != nil && err != ErrExecutionReverted && err != ErrDepth ==> leftOverGas == 0
+//@   ensures [revert]  err != nil ==> ghost(stver) == old(ghost(stver))
+
+//@ func EVM.StaticCall
+//@   property C12 C11
+//@   option intmode=math
+//@   requires ref(caller) != 0 && evm != nil && typeid(caller) != 0 && typeid(evm.StateDB) != 0
+//@   ensures [gas]     leftOverGas <= gas
+//@   ensures [failgas] err != nil && err != ErrExecutionReverted && err != ErrDepth ==> leftOverGas == 0
+//@   ensures [revert]  err != nil ==> ghost(stver) == old(ghost(stver))
